@@ -2908,7 +2908,10 @@ XPath::step(
 
     case XPathExpression::eMATCH_ATTRIBUTE:
         continueStepRecursion = false;
-        // fall-through on purpose.
+        // The node test of an attribute step in a match pattern is
+        // the same as the one of a step on the attribute axis...
+        opPos = findAttributes(executionContext, context, opPos, XPathExpression::eFROM_ATTRIBUTES, *subQueryResults);
+        break;
 
     case XPathExpression::eFROM_ATTRIBUTES:
         opPos = findAttributes(executionContext, context, opPos, stepType, *subQueryResults);
@@ -3272,12 +3275,18 @@ XPath::stepPattern(
 
             opPos += 3;
 
-            score = NodeTester(
+            // Only an attribute can match, whatever the node test is,
+            // and a namespace declaration is not an attribute...
+            if (context->getNodeType() == XalanNode::ATTRIBUTE_NODE &&
+                DOMServices::isNamespaceDeclaration(static_cast<const XalanAttr&>(*context)) == false)
+            {
+                score = NodeTester(
                             *this,
                             executionContext,
                             opPos,
                             argLen,
-                            XPathExpression::eFROM_ATTRIBUTES)(*context, context->getNodeType());
+                            XPathExpression::eFROM_ATTRIBUTES)(*context, XalanNode::ATTRIBUTE_NODE);
+            }
         }
         break;
 
@@ -3791,12 +3800,17 @@ XPath::findAttributes(
                     XalanNode* const    theNode = attributeList->item(j);
                     assert(theNode != 0 && theNode->getNodeType() == XalanNode::ATTRIBUTE_NODE);
 
-                    const eMatchScore   score =
-                        theTester(*theNode, XalanNode::ATTRIBUTE_NODE);
-
-                    if(eMatchScoreNone != score)
+                    // A namespace declaration is not on the attribute
+                    // axis, whatever the node test is...
+                    if (DOMServices::isNamespaceDeclaration(static_cast<const XalanAttr&>(*theNode)) == false)
                     {
-                        subQueryResults.addNode(theNode);
+                        const eMatchScore   score =
+                            theTester(*theNode, XalanNode::ATTRIBUTE_NODE);
+
+                        if(eMatchScoreNone != score)
+                        {
+                            subQueryResults.addNode(theNode);
+                        }
                     }
                 }
             }
